@@ -12,8 +12,16 @@
     Swap / Copy / Discard                  cartesian.py:273-312
     COPY, SWAP, DISCARD, ADD               cartesian.py:345-348
 
-  Python values are `PyVal`: integers (`atom`) and tuples (`tup`).  A Python callable is a
-  function `List PyVal → Except Err PyVal` (argument tuple ↦ returned object or raised class).
+  Python values are `PyVal`: integers (`atom`), typed tokens (`tok ty n`: a non-tuple object
+  of another type — `float(n)`, `bool(n)`, or the n-th value of the harness's table of strings,
+  bytes, None, lists, dicts, sets, other floats such as -0.0 and 1.5) and tuples (`tup`).
+  cartesian.py never looks inside a wire value: the only test it makes is `isinstance(_, tuple)`
+  (`tuplify`), so everything that is not a tuple is a token; tokens of different types are
+  different values (`1`, `1.0` and `True` are `atom 1`, `tok float 1`, `tok bool 1`) although
+  Python's `==` and `hash` identify them.  A Python callable is a
+  function `List PyVal → Except Err PyVal` (argument tuple ↦ returned object or raised class):
+  calls have no history (a box applied twice to the same arguments answers twice the same, and a
+  box applied to `1.0` never sees what it answered on `1`).
   Types are `PRO(n)`, modelled by `n : Nat`; a slice of `PRO(n)` is the `PRO` of the length of
   the slice (monoidal.py:184-187 + rigid.py:121-123), see `proSlice`.
 
@@ -33,8 +41,17 @@ open DV
 
 /-! ### Python values -/
 
+/-- The type of a non-tuple, non-int wire value. -/
+inductive Ty where
+  | float      -- `float(n)` for an integer `n` (|n| < 2^53), zero positive
+  | bool       -- `bool(n)`, n ∈ {0, 1}
+  | floatx     -- any other float (-0.0, 1.5, inf, nan): opaque, n-th of the harness's table
+  | none | str | bytes | list | dict | set | frozenset   -- opaque, n-th of the harness's table
+  deriving DecidableEq, Repr, Inhabited
+
 inductive PyVal where
   | atom (n : Int)
+  | tok (ty : Ty) (n : Int)
   | tup (xs : List PyVal)
   deriving Repr, Inhabited
 
@@ -46,8 +63,15 @@ def PyVal.decEq : (a b : PyVal) → Decidable (a = b)
     match PyVal.decEqList xs ys with
     | isTrue h => isTrue (by rw [h])
     | isFalse h => isFalse (by intro h'; cases h'; exact h rfl)
+  | .tok s a, .tok t b =>
+    if h : s = t ∧ a = b then isTrue (by rw [h.1, h.2])
+    else isFalse (by intro h'; cases h'; exact h ⟨rfl, rfl⟩)
   | .atom _, .tup _ => isFalse (by intro h; cases h)
   | .tup _, .atom _ => isFalse (by intro h; cases h)
+  | .atom _, .tok _ _ => isFalse (by intro h; cases h)
+  | .tok _ _, .atom _ => isFalse (by intro h; cases h)
+  | .tok _ _, .tup _ => isFalse (by intro h; cases h)
+  | .tup _, .tok _ _ => isFalse (by intro h; cases h)
 def PyVal.decEqList : (a b : List PyVal) → Decidable (a = b)
   | [], [] => isTrue rfl
   | x :: xs, y :: ys =>
@@ -71,11 +95,13 @@ instance {ε α} [DecidableEq ε] [DecidableEq α] : DecidableEq (Except ε α)
 /-- `isinstance(v, tuple)` negated. -/
 def PyVal.isAtom : PyVal → Bool
   | .atom _ => true
+  | .tok _ _ => true
   | .tup _ => false
 
 /-- cartesian.py:43-45 `stuff if isinstance(stuff, tuple) else (stuff, )`. -/
 def tuplify : PyVal → List PyVal
   | .atom n => [.atom n]
+  | .tok t n => [.tok t n]
   | .tup xs => xs
 
 /-- cartesian.py:48-50 `stuff[0] if len(stuff) == 1 else stuff` (called as `untuplify(*stuff)`). -/
@@ -234,23 +260,56 @@ def CDiagram.run (d : CDiagram) (vals : List PyVal) : Except Err (List PyVal) :=
 
 /-! ### The pool of primitive Python functions (the harness runs the same ones in Python) -/
 
-/-- `x + y` on ints and tuples (`int + tuple` is a `TypeError`). -/
-def PyVal.add : PyVal → PyVal → Except Err PyVal
-  | .atom a, .atom b => .ok (.atom (a + b))
-  | .tup a, .tup b => .ok (.tup (a ++ b))
-  | .atom _, .tup _ => .error .type
-  | .tup _, .atom _ => .error .type
+/-- Python's numeric reading of a value: `(is a float, integer value)` for `int`, `bool`
+    (a subclass of `int`) and integer-valued `float`; nothing else is a number here.
+    (The harness compares arithmetic only on such numbers — no -0.0, no overflow past 2^53, no
+    sequence repetition `2 * "a"`, see `TAINT` in harness/props/c19.py.) -/
+def PyVal.num? : PyVal → Option (Bool × Int)
+  | .atom a => some (false, a)
+  | .tok .float a => some (true, a)
+  | .tok .bool a => some (false, a)
+  | _ => none
 
-/-- `k * x` for an int `k`: product of ints, repetition of a tuple (empty when `k <= 0`). -/
-def PyVal.rmul (k : Int) : PyVal → PyVal
-  | .atom a => .atom (k * a)
-  | .tup xs => .tup (List.replicate k.toNat xs).flatten
+/-- The number back as a value: arithmetic of ints and bools is an `int`, with a float a `float`. -/
+def PyVal.ofNum (fl : Bool) (a : Int) : PyVal := if fl then .tok .float a else .atom a
+
+def addNum : Option (Bool × Int) → Option (Bool × Int) → Except Err PyVal
+  | some (f, a), some (g, b) => .ok (PyVal.ofNum (f || g) (a + b))
+  | _, _ => .error .type
+
+/-- `x + y` on numbers and tuples (`int + tuple`, `None + 1`, `{} + {}` are `TypeError`s). -/
+def PyVal.add : PyVal → PyVal → Except Err PyVal
+  | .tup a, .tup b => .ok (.tup (a ++ b))
+  | x, y => addNum x.num? y.num?
+
+/-- `k * x` for an int `k`: product of numbers, repetition of a tuple (empty when `k <= 0`);
+    `k * None`, `k * {}` raise `TypeError`. -/
+def PyVal.rmul (k : Int) : PyVal → Except Err PyVal
+  | .tup xs => .ok (.tup (List.replicate k.toNat xs).flatten)
+  | x => match x.num? with
+    | some (f, a) => .ok (PyVal.ofNum f (k * a))
+    | none => .error .type
+
+/-- `TYPES.index(type(x))` of harness/props/c19.py. -/
+def PyVal.tyCode : PyVal → Int
+  | .atom _ => 0
+  | .tok .float _ => 1
+  | .tok .floatx _ => 1
+  | .tok .bool _ => 2
+  | .tok .str _ => 3
+  | .tok .bytes _ => 4
+  | .tok .none _ => 5
+  | .tok .list _ => 6
+  | .tok .dict _ => 7
+  | .tok .set _ => 8
+  | .tok .frozenset _ => 9
+  | .tup _ => 10
 
 /-- `acc = s + j; for i in range(m): acc = acc + (i + j + 1) * xs[i]`. -/
 def affRow (j : Nat) : Nat → PyVal → List PyVal → Except Err PyVal
   | _, acc, [] => .ok acc
   | i, acc, x :: xs =>
-    (acc.add (x.rmul ((i + j + 1 : Nat) : Int))).bind (fun a => affRow j (i + 1) a xs)
+    ((x.rmul ((i + j + 1 : Nat) : Int)).bind acc.add).bind (fun a => affRow j (i + 1) a xs)
 
 def affOuts (s : Int) (xs : List PyVal) : List Nat → Except Err (List PyVal)
   | [] => .ok []
@@ -261,6 +320,14 @@ def affOuts (s : Int) (xs : List PyVal) : List Nat → Except Err (List PyVal)
 /-- `outs[0] if bare and n == 1 else tuple(outs)`. -/
 def affPack (n : Nat) (bare : Bool) (outs : List PyVal) : PyVal :=
   if bare ∧ n = 1 then outs.headD (.tup []) else .tup outs
+
+/-- `[xs[i] for i in is]`, `IndexError` on the first index out of range. -/
+def pickAll (xs : List PyVal) : List Nat → Except Err (List PyVal)
+  | [] => .ok []
+  | i :: is =>
+    match xs[i]? with
+    | some v => (pickAll xs is).map (v :: ·)
+    | none => .error .index
 
 inductive Prim where
   | add                                      -- ADD      lambda x, y: x + y      (cartesian.py:348)
@@ -274,6 +341,9 @@ inductive Prim where
   | nest (m : Nat)                           -- exactly m arguments ↦ (xs,) (a tuple on one wire)
   | fail                                     -- raises ValueError
   | ident (m : Nat)                          -- the sub-diagram Id(m) used as a box's function
+  | tyc (m i : Nat)                          -- exactly m arguments ↦ the code of type(xs[i])
+  | const (m : Nat) (v : PyVal)              -- exactly m arguments ↦ the (immutable) value v
+  | pick (m : Nat) (is : List Nat)           -- exactly m arguments ↦ tuple(xs[i] for i in is)
   deriving DecidableEq, Repr, Inhabited
 
 /-- Fixed-arity Python functions raise `TypeError` on a wrong number of arguments. -/
@@ -287,7 +357,7 @@ def Prim.sem : Prim → List PyVal → Except Err PyVal
   | .swap, _ => .error .type
   | .copy, xs => .ok (.tup (xs ++ xs))
   | .discard, _ => .ok (.tup [])
-  | .scale k, [x] => .ok (x.rmul k)
+  | .scale k, [x] => x.rmul k
   | .scale _, _ => .error .type
   | .affine m n s bare, xs =>
     arity m xs ((affOuts s xs (List.range n)).map (affPack n bare))
@@ -296,6 +366,10 @@ def Prim.sem : Prim → List PyVal → Except Err PyVal
   | .nest m, xs => arity m xs (.ok (.tup [.tup xs]))
   | .fail, _ => .error .value
   | .ident m, xs => (Function.id m).call xs   -- Id(m)(*xs): cartesian.py:199-203, no boxes
+  | .tyc m i, xs =>
+    arity m xs (match xs[i]? with | some v => .ok (.atom v.tyCode) | none => .error .index)
+  | .const m v, xs => arity m xs (.ok v)
+  | .pick m is, xs => arity m xs ((pickAll xs is).map .tup)
 
 /-- A box of declared arity `dom → cod` around a primitive. -/
 def Prim.box (p : Prim) (dom cod : Nat) : CBox := ⟨dom, cod, p.sem⟩
